@@ -854,7 +854,7 @@ func init() {
 			m := []core.Mode{{Name: "plain", Variant: "plain"}, {Name: "checkptr", Variant: "checkptr", CaseDiv: 3}}
 			return m
 		},
-		NumCases: func(c *core.Ctx) int { return c.Pick(2100, 60000) },
+		NumCases: func(c *core.Ctx) int { return c.Pick(7000, 140000) },
 		Run:      runC20,
 		Floors: func(a *core.Agg) []string {
 			var u []string
